@@ -209,6 +209,32 @@ func ruleOverride(c *Ctx) {
 	name := fname(fn)
 	want := map[string]string{"cmd.getBPM": "BPM", "cmd.getVelocity": "Velocity", "cmd.getMeter": "Meter", "cmd.getKey": "Key"}
 	seen := map[string]bool{}
+	// the instance being overridden: the pointer parameter, or - handed over and back by value - the parameter's own
+	// storage, which every successful return must then hand back
+	var inst ssa.Value = fn.Params[1]
+	if _, isPtr := fn.Params[1].Type().Underlying().(*types.Pointer); !isPtr {
+		inst = nil
+		for _, r := range *fn.Params[1].Referrers() {
+			if st, ok := r.(*ssa.Store); ok && st.Val == ssa.Value(fn.Params[1]) {
+				if al, ok := st.Addr.(*ssa.Alloc); ok {
+					inst = al
+				}
+			}
+		}
+		c.site(1)
+		handedBack := inst != nil
+		allInstrs(fn, func(in ssa.Instruction) {
+			r, ok := in.(*ssa.Return)
+			if !ok || len(r.Results) != 2 || !isNilConst(r.Results[1]) {
+				return
+			}
+			ld, ok := r.Results[0].(*ssa.UnOp)
+			if !ok || ld.Op != token.MUL || ld.X != inst {
+				handedBack = false
+			}
+		})
+		c.check(handedBack, name+"|handed-back", c.pos(fn.Pos()), name, "the overridden copy is what a successful call returns", name+": the instance is taken by value but a successful return does not hand the overridden copy back")
+	}
 	for _, ci := range callsIn(fn) {
 		getter := calleeName(ci.Common())
 		field, ok := want[getter]
@@ -236,7 +262,7 @@ func ruleOverride(c *Ctx) {
 			if !ok {
 				return
 			}
-			if n, base, ok := fieldName(st.Addr); ok && n == field && base == ssa.Value(fn.Params[1]) {
+			if n, base, ok := fieldName(st.Addr); ok && n == field && inst != nil && base == inst {
 				// value: address of a local holding x
 				if al, ok := st.Val.(*ssa.Alloc); ok {
 					for _, r := range *al.Referrers() {
@@ -309,5 +335,106 @@ func ruleOverride(c *Ctx) {
 			}
 		})
 		c.check(usesSentinel, "cmd."+g+"|sentinel", c.pos(gf.Pos()), fname(gf), "empty/zero flag value -> `not given` sentinel", "cmd."+g+" no longer returns the ErrOK sentinel for an unset flag")
+	}
+}
+
+// ---------------------------------------------------------------------------
+// NARROW
+
+// intRange: the value range of a basic integer type on the 64-bit targets crd is built for (lo, hi as float64 is enough to compare).
+func intRange(b *types.Basic) (lo, hi float64, ok bool) {
+	switch b.Kind() {
+	case types.Int8:
+		return -128, 127, true
+	case types.Int16:
+		return -32768, 32767, true
+	case types.Int32, types.UntypedRune:
+		return -2147483648, 2147483647, true
+	case types.Int, types.Int64:
+		return -9223372036854775808, 9223372036854775807, true
+	case types.Uint8:
+		return 0, 255, true
+	case types.Uint16:
+		return 0, 65535, true
+	case types.Uint32:
+		return 0, 4294967295, true
+	case types.Uint, types.Uint64, types.Uintptr:
+		return 0, 18446744073709551615, true
+	}
+	return 0, 0, false
+}
+
+// narrowingConversions lists every integer conversion of a repo function whose target type cannot hold every value of its source type.
+func (c *Ctx) narrowingConversions() []*ssa.Convert {
+	var out []*ssa.Convert
+	for _, fn := range c.srcFuncs() {
+		if strings.HasSuffix(c.Fset.PositionFor(fn.Pos(), false).Filename, "_generated.go") {
+			continue
+		}
+		allInstrs(fn, func(in ssa.Instruction) {
+			cv, ok := in.(*ssa.Convert)
+			if !ok {
+				return
+			}
+			sb, ok1 := cv.X.Type().Underlying().(*types.Basic)
+			db, ok2 := cv.Type().Underlying().(*types.Basic)
+			if !ok1 || !ok2 {
+				return
+			}
+			slo, shi, ok1 := intRange(sb)
+			dlo, dhi, ok2 := intRange(db)
+			if !ok1 || !ok2 || (dlo <= slo && shi <= dhi) {
+				return
+			}
+			// a value of an enumeration (a named integer type with declared constants, only ever produced from them)
+			// ranges over those constants
+			if n := namedOf(cv.X.Type()); n != nil && n.Obj().Pkg() != nil && c.isRepoPkgPath(n.Obj().Pkg().Path()) {
+				if enum := c.enumConsts(short(n.Obj().Pkg().Path()), n.Obj().Name()); len(enum) >= 2 {
+					fits := true
+					for _, v := range enum {
+						if float64(v) < dlo || float64(v) > dhi {
+							fits = false
+						}
+					}
+					if fits {
+						return
+					}
+				}
+			}
+			out = append(out, cv)
+		})
+	}
+	return out
+}
+
+// reviewedNarrowing: the integer conversions of the reviewed tree that go to a type which cannot hold every value of the
+// source type, by (source type -> target type), each with the reason the values fit. The rule is about the pair, not the
+// place: moving or duplicating such a conversion changes nothing, giving a type fewer bits makes new pairs.
+var reviewedNarrowing = map[string]string{
+	"uint->note.Semitone":                "the number of whole octaves in an interval number: a uint divided by 7 is below 2^62",
+	"int->uint":                          "a letter distance plus one: at least 1",
+	"note.Semitone->play.MIDINoteNumber": "pitch arithmetic of Key.Apply / SPN.MIDINoteNumber is done in MIDI note numbers (bytes); the summands are pitch classes, interval sizes and octaves of the reviewed tables",
+	"op.BPM->int":                        "a tempo: validated positive, and a uint tempo beyond 2^63 is not a tempo",
+	"uint->uint8":                        "meter numerator and denominator: Meter.validate refuses numerators above 255 and denominators above 128",
+	"note.Semitone->uint8":               "the tonic's pitch class, 0..11",
+	"int->uint8":                         "the number of sharps or flats of a key signature, 0..7",
+}
+
+func (c *Ctx) checkNarrowPairs() {
+	seen := map[string]bool{}
+	for _, cv := range c.narrowingConversions() {
+		pair := typeName(cv.X.Type()) + "->" + typeName(cv.Type())
+		fn := cv.Parent()
+		c.site(1)
+		if seen[pair] {
+			continue
+		}
+		seen[pair] = true
+		if why, ok := reviewedNarrowing[pair]; ok {
+			c.ok("narrow|"+pair, c.pos(cv.Pos()), fname(fn), "reviewed: "+why)
+			continue
+		}
+		ac := &affCtx{c: c, fn: fn, alias: map[ssa.Value]string{}}
+		c.bad("narrow|"+pair, c.pos(cv.Pos()), fname(fn), fmt.Sprintf("%s converts %s (a %s) to %s, which cannot hold every value of the source type, and no such conversion was reviewed: values outside the target's range wrap around silently (a tempo of 300 written as 44, say) instead of being kept or refused", fname(fn), ac.describe(cv.X), typeName(cv.X.Type()), typeName(cv.Type())))
 	}
 }
